@@ -1274,3 +1274,24 @@ Proof.
     fold (entries (apply_deletes (tx_dels ops) base)). fold (entries (append_manifest id (last_seq (md st) + 1) (tx_adds ops))).
     rewrite apply_deletes_keys, append_manifest_entries, map_map. reflexivity.
 Qed.
+
+(* ================================================================== the frame around the generated walk *)
+(* repoint_parents_to_surviving_ancestors as a whole (dict + per-survivor loop): on an acyclic snapshot list every
+   survivor keeps its identity and gets the nearest surviving ancestor of its old parent link; on any list, a link
+   that is nothing or kept and reachable. *)
+Theorem repoint_all_nearest : forall all kept s', acyclic (parent_map all) -> In s' (repoint_all all kept) ->
+  exists s, In s kept /\ sid s' = sid s /\ ts s' = ts s /\ seq s' = seq s /\ mlist s' = mlist s /\
+            nsa (parent_map all) (map sid kept) (parent s) (parent s').
+Proof.
+  intros all kept s' Hac Hin. apply repoint_all_In in Hin. destruct Hin as [s [Hs ->]].
+  exists s. split; [exact Hs|]. simpl. repeat split; try reflexivity.
+  unfold repoint_one. destruct (gen_repoint_one_total (parent_map all) (map sid kept) (parent s)) as [r [Hr _]].
+  rewrite Hr. apply (gen_repoint_one_nearest _ _ _ _ Hac). exact Hr.
+Qed.
+
+Theorem repoint_all_safe : forall all kept s', In s' (repoint_all all kept) ->
+  exists s, In s kept /\ sid s' = sid s /\ walk_post (parent_map all) (map sid kept) (parent s) (parent s').
+Proof.
+  intros all kept s' Hin. apply repoint_all_In in Hin. destruct Hin as [s [Hs ->]].
+  exists s. split; [exact Hs|]. split; [reflexivity|]. simpl. apply repoint_one_post.
+Qed.
